@@ -276,7 +276,7 @@ func TestVerifC19InProcess(t *testing.T) {
 		{"on-config-file-500", "config-file-on", "some", 1},
 		{"on-default-neterr", "default-on", "some", 2},
 	}
-	rounds := kit.Scale(1, 4)
+	rounds := kit.Scale(2, 5)
 	root := kit.NewRNG(kit.Mix(kit.Seed(), 0xC19))
 	instanceIDs := map[string]int{}
 	keysSeen := map[string]bool{}
@@ -325,11 +325,16 @@ func TestVerifC19InProcess(t *testing.T) {
 						completed = false
 						rep.Inconc(fmt.Sprintf("%s: activity incomplete: %v", cs.Name, err))
 					}
-					if cs.Expect == "some" && life == 0 && round == 0 && cs.Mode == 0 {
-						// let the periodic path run at least once (logical
-						// condition, watchdog only bounds the wait)
-						if vfWait(8*time.Second, func() bool { return rec.Len() >= 2 }) {
-							rep.Count("periodic_report_observed", 1)
+					if cs.Expect == "some" {
+						// a report built AFTER the user data exists: wait for
+						// one more request than were recorded when the activity
+						// ended (logical condition; the watchdog only bounds
+						// the wait, the interval is 1 s)
+						k := rec.Len()
+						if vfWait(10*time.Second, func() bool { return rec.Len() > k }) {
+							rep.Count("reports_sent_after_activity", 1)
+						} else {
+							rep.Inconc(cs.Name + ": watchdog: no periodic report after the activity")
 						}
 					}
 					if err := srv.Stop(); err != nil {
